@@ -74,6 +74,14 @@ func runX1(p *an.Prog, r *an.Result) {
 				return "?"
 			}
 			for _, st := range an.Stores(al) {
+				// a parameter of a builder function: left and right by position (the grammar hands $1, $3 in order: G-rules)
+				if par, ok := st.(*ssa.Parameter); ok && fn.Parent() != nil {
+					for k, pp := range fn.Parent().Params {
+						if pp == par {
+							return fmt.Sprintf("p%d", k)
+						}
+					}
+				}
 				// yyDollar[k].f
 				d := describe(p, st)
 				_ = d
@@ -93,6 +101,36 @@ func runX1(p *an.Prog, r *an.Result) {
 		if s0 == "?" || s1 == "?" || s0 == s1 {
 			r.Bad(name, "operand binding", an.FuncPos(fn), "the captured operand functions could not be traced to two distinct grammar symbols")
 			continue
+		}
+		// a builder's parameters are filled from the grammar's symbols in order
+		if strings.HasPrefix(s0, "p") && fn.Parent() != nil {
+			symOf := func(v ssa.Value) int64 {
+				for _, o := range an.Origins(v, an.StepValue) {
+					if ld, ok := o.(*ssa.UnOp); ok {
+						if fa, ok := ld.X.(*ssa.FieldAddr); ok {
+							if ia, ok := fa.X.(*ssa.IndexAddr); ok {
+								if k, ok := an.ConstInt(ia.Index); ok {
+									return k
+								}
+							}
+						}
+					}
+				}
+				return -1
+			}
+			swapped := false
+			for _, site := range callSitesOf(p, fn.Parent()) {
+				if len(site.Call.Args) >= 2 {
+					a, b := symOf(site.Call.Args[0]), symOf(site.Call.Args[1])
+					if a >= 0 && b >= 0 && a > b {
+						swapped = true
+						r.Bad(name, "builder called with its operands swapped", site.Pos(), "the grammar hands the right-hand symbol to the builder's left parameter")
+					}
+				}
+			}
+			if swapped {
+				continue
+			}
 		}
 		// left = smaller symbol index; it must also be evaluated first
 		L, R := operands[0], operands[1]
@@ -852,6 +890,30 @@ func x7Bare(p *an.Prog, r *an.Result) {
 							oblk = oi.Block()
 						}
 						inPtr, nonNil := false, false
+						// the result of a helper of the unit is judged inside that helper
+						if oc, isCall := o.(*ssa.Call); isCall {
+							if callee := oc.Call.StaticCallee(); callee != nil {
+								if voUnit[callee] && an.FuncName(callee) != "values.ValueOf" {
+									continue
+								}
+							}
+						}
+						if unitGuarded(p, voUnit, oblk, func(cond ssa.Value, taken bool) bool {
+							b, ok := cond.(*ssa.BinOp)
+							if !ok || b.Op != token.EQL || !taken {
+								return false
+							}
+							for _, pair := range [][2]ssa.Value{{b.X, b.Y}, {b.Y, b.X}} {
+								if isPkgType(pair[0].Type(), "reflect", "Kind") && kindOfWhole(pair[0], 0) {
+									if c, ok := an.ConstInt(pair[1]); ok && c == 22 {
+										return true
+									}
+								}
+							}
+							return false
+						}, 0) {
+							inPtr = true
+						}
 						for _, gd := range an.GuardsAt(oblk) {
 							if b, ok := gd.Cond.(*ssa.BinOp); ok && b.Op == token.EQL && gd.True {
 								for _, pair := range [][2]ssa.Value{{b.X, b.Y}, {b.Y, b.X}} {
@@ -1405,6 +1467,23 @@ func runX15(p *an.Prog, r *an.Result) {
 						if ta, ok := o.(*ssa.TypeAssert); ok {
 							if tb, ok := ta.AssertedType.Underlying().(*types.Basic); ok && tb.Info()&types.IsNumeric != 0 {
 								return true
+							}
+						}
+						// a number handed to a helper of the comparison, or handed back by one
+						isNum := func(t types.Type) bool {
+							tb, ok := t.Underlying().(*types.Basic)
+							return ok && tb.Info()&types.IsNumeric != 0
+						}
+						if par, ok := o.(*ssa.Parameter); ok && par.Parent() != fn && isNum(par.Type()) {
+							return true
+						}
+						if c, ok := o.(*ssa.Call); ok && isNum(c.Type()) {
+							if callee := c.Call.StaticCallee(); callee != nil && p.InModule(callee) && callee.Pkg == fn.Pkg && callee != fn {
+								for _, a := range c.Call.Args {
+									if isPkgType(a.Type(), "reflect", "Value") {
+										return true
+									}
+								}
 							}
 						}
 						return false
